@@ -10,7 +10,7 @@ from sx.runner import Harness
 ID = "C34"
 MANIFEST = {
     "technique": "bounded model checking with solver-decided choice (SX engine): the definitions of an environment (variables in every bash quoting style, arrays, functions whose bodies contain braces in quotes, parameter expansions with quoted closing braces, here-documents, case arms, comments, arithmetic, nested functions), their order, the filter patterns and the blacklist/whitelist modes are symbolic selectors; the engine forks over every feasible combination; /bin/bash itself writes the dump (declare -p / declare -f after sourcing the definitions), the real filter_env.main_run filters it, and /bin/bash sources the result: the definitions it then reports are compared with the original ones minus the filtered names",
-    "level_text": "Bounded model checking, exhaustive within the bound (environments of 2 variables from 9 and 2 functions from 9 in both orders, 10 combinations of variable / function filters in blacklist and whitelist mode): sourcing the filtered dump in bash defines exactly the non-filtered variables and functions (exactly the filtered ones in whitelist mode) with the same values and the same function bodies as bash itself reports for the unfiltered dump, and the filtered text sources without a syntax error. Selector-only; bash is the oracle.",
+    "level_text": "Bounded model checking, exhaustive within the bound (environments of 2 variables from 11 and 2 functions from 10 in both orders, 12 combinations of variable / function filters (single names, several names incl. one that is a prefix of another definition, regular expressions) in blacklist and whitelist mode): sourcing the filtered dump in bash defines exactly the non-filtered variables and functions (exactly the filtered ones in whitelist mode) with the same values and the same function bodies as bash itself reports for the unfiltered dump, and the filtered text sources without a syntax error. Selector-only; bash is the oracle.",
     "level_note": "selector-only harness (labelled as such). Each path runs /bin/bash three times (dump, reference report, report after filtering).",
 }
 META = {
@@ -26,17 +26,18 @@ META = {
 VARS = [
     ("PLAIN", "PLAIN=word"), ("DQ", 'DQ="two words \\" } and $ \\$x"'), ("SQ", "SQ='single } { \" # quote'"), ("ANSI", "ANSI=$'tab\\there } \\' quote'"), ("ARR", 'ARR=(one "two } three" $\'fo\\nur\')'),
     ("EMPTY", "EMPTY="), ("EXP", 'export EXP="exported # not a comment"'), ("MULTI", 'MULTI="line one\nline } two\n# three"'), ("FUNCLIKE", 'FUNCLIKE="f() { echo; }"'),
+    ("PLAIN_EXT", "PLAIN_EXT=longer-name"), ("ANSIBS", "ANSIBS=$'first\\nC:\\\\dir\\\\'"),
 ]
 FUNCS = [
     ("f_plain", "f_plain() { echo hi; }"), ("f_brace", "f_brace() { echo \"}\"; echo '{'; }"), ("f_param", 'f_param() { local x=${1:-"}"}; echo "${x#"}"}"; }'),
     ("f_here", "f_here() {\ncat <<EOF\n}\nnot the end {\nEOF\n}"), ("f_case", 'f_case() { case $1 in a) echo "}";; b|c) : ;; *) echo \')\';; esac; }'),
     ("f_comment", "f_comment() {\n# a } in a comment\necho done # trailing }\n}"), ("f_arith", "f_arith() { local i; for ((i=0; i<3; i++)); do (( i > 1 )) && echo $(( i << 1 )); done; }"),
-    ("f_nested", "f_nested() { inner() { echo '}'; }; inner; }"), ("f_subsh", 'f_subsh() { ( echo "$(echo "}")" ); echo `echo {`; }'),
+    ("f_nested", "f_nested() { inner() { echo '}'; }; inner; }"), ("f_subsh", 'f_subsh() { ( echo "$(echo "}")" ); echo `echo {`; }'), ("f_plain_x", "f_plain_x() { echo longer; }"),
 ]
-VFILTERS = [None, ["PLAIN"], ["DQ", "ARR"], ["M.*"], ["A.*"], ["NOPE"]]  # patterns are anchored regular expressions
-FFILTERS = [None, ["f_plain"], ["f_brace", "f_here"], ["f_.a.*"], ["f_nested"], ["nope"]]
+VFILTERS = [None, ["PLAIN"], ["DQ", "ARR"], ["M.*"], ["A.*"], ["NOPE"], ["PLAIN", "ANSIBS", "DQ"]]  # patterns are anchored regular expressions
+FFILTERS = [None, ["f_plain"], ["f_brace", "f_here"], ["f_.a.*"], ["f_nested"], ["nope"], ["f_plain", "f_case"]]
 # (variable filter, function filter, vars_is_whitelist, funcs_is_whitelist)
-FILTS = [(0, 0, False, False), (1, 1, False, False), (2, 2, False, False), (3, 3, False, False), (4, 4, True, False), (2, 3, True, True), (5, 5, False, True), (3, 2, False, True), (0, 4, False, False), (4, 0, False, False)]
+FILTS = [(0, 0, False, False), (1, 1, False, False), (2, 2, False, False), (3, 3, False, False), (4, 4, True, False), (2, 3, True, True), (5, 5, False, True), (3, 2, False, True), (0, 4, False, False), (4, 0, False, False), (6, 6, False, False), (6, 6, True, True)]
 REPORT = 'for v in %s; do declare -p "$v" 2>/dev/null || echo "unset $v"; done; for f in %s; do declare -f "$f" 2>/dev/null || echo "nofunc $f"; done'
 ALLV = " ".join(n for n, _ in VARS)
 ALLF = " ".join(n for n, _ in FUNCS) + " inner"
